@@ -344,3 +344,30 @@ def tlc_strict_dyn(trace_path, wd, timeout=900):
     if not ok:
         return {"ok": False, "error": "\n".join(text.splitlines()[-30:]), "drifts": drifts, "stats": stats, "wall": dt}
     return {"ok": True, "drifts": drifts, "stats": stats, "wall": dt}
+
+
+def tlc_strict_transport(mc_cfg, trace_path, wd, timeout=600):
+    """Strict pass for stack traces of behaviours exported from MC_Transport (TraceTransportStrict)."""
+    d = os.path.join(wd, "strict")
+    os.makedirs(d, exist_ok=True)
+    text = open(os.path.join(SPEC, mc_cfg)).read()
+    m = re.search(r"Ids = (\{[^}]*\})", text)
+    cfgf = os.path.join(d, "stricttr-" + os.path.basename(trace_path) + ".cfg")
+    with open(cfgf, "w") as f:
+        f.write("SPECIFICATION SSpec\nCONSTANTS\n  Ids = %s\n  MaxSteps = 1000000\n  MaxDisc = 1000000\n  Export = FALSE\n  ExportOneIn = 1\n"
+                "INVARIANT SDone\nCHECK_DEADLOCK FALSE\n" % (m.group(1) if m else "{1, 2}"))
+    meta = os.path.join(d, "metatr-" + os.path.basename(trace_path))
+    out = os.path.join(d, "stricttr-" + os.path.basename(trace_path) + ".out")
+    cmd = ["timeout", str(timeout), "tlc", "-workers", "1", "-metadir", meta, "-cleanup", "-noGenerateSpecTE", "-config", cfgf, "TraceTransportStrict.tla"]
+    t0 = time.time()
+    rc, _ = run(cmd, cwd=SPEC, env={"TRACE": os.path.abspath(trace_path), "JAVA_TOOL_OPTIONS": JAVA_TRACE}, out=out)
+    dt = time.time() - t0
+    text = open(out, errors="replace").read()
+    shutil.rmtree(meta, ignore_errors=True)
+    drifts = [tla_json(m.group(1)) for m in re.finditer(r'<<"DRIFT", "(.*)">>', text)]
+    m = re.search(r'<<"STRICT", "(.*)">>', text)
+    stats = tla_json(m.group(1)) if m else {}
+    ok = "Model checking completed. No error has been found." in text and bool(stats)
+    if not ok:
+        return {"ok": False, "error": "\n".join(text.splitlines()[-30:]), "drifts": drifts, "stats": stats, "wall": dt}
+    return {"ok": True, "drifts": drifts, "stats": stats, "wall": dt}
